@@ -249,3 +249,48 @@ func handlerRegionPasses(fd *ast.FuncDecl, info *types.Info, nr *noRet, pass fun
 }
 
 var _ = strings.Contains
+
+// deferredRecoverFuncs: functions of the package that call recover() directly in their own body and are the
+// callee of a defer statement somewhere in the package — a recover handler written as a function or method
+// rather than as a deferred literal, whatever it does with the recovered value (store it, re-raise it).
+func deferredRecoverFuncs(c *Ctx, rel string) map[*types.Func]bool {
+	p := c.pkg(rel)
+	out := map[*types.Func]bool{}
+	if p == nil {
+		return out
+	}
+	info := p.TypesInfo
+	calls := map[*types.Func]bool{}
+	for _, fd := range c.allFuncDecls(rel) {
+		direct := false
+		ast.Inspect(fd.Body, func(x ast.Node) bool {
+			if _, ok := x.(*ast.FuncLit); ok {
+				return false
+			}
+			if call, ok := x.(*ast.CallExpr); ok {
+				if id, ok := call.Fun.(*ast.Ident); ok && id.Name == "recover" {
+					if _, ok := info.Uses[id].(*types.Builtin); ok {
+						direct = true
+					}
+				}
+			}
+			return true
+		})
+		if direct {
+			if fn, ok := info.Defs[fd.Name].(*types.Func); ok {
+				calls[fn] = true
+			}
+		}
+	}
+	for _, fd := range c.allFuncDecls(rel) {
+		ast.Inspect(fd.Body, func(x ast.Node) bool {
+			if d, ok := x.(*ast.DeferStmt); ok {
+				if cal := calleeFunc(d.Call, info); cal != nil && calls[cal] {
+					out[cal] = true
+				}
+			}
+			return true
+		})
+	}
+	return out
+}
